@@ -160,6 +160,15 @@ theorem statOk0_nanmean (mag : α) (c : Col α) : statOk tol0 mag meanL c (nanme
       cases present c <;> rfl
     rw [this, closeO0_self]
 
+/-- the moment clause for the mean accepts `nanmean` of the raw column, missing values or not -/
+theorem expectIgn_meanL (c : Col α) : expectIgn meanL c = nanmean c := by
+  unfold expectIgn nanmean
+  cases present c <;> rfl
+
+theorem momentOk0_nanmean (mag : α) (c : Col α) : momentOk tol0 mag meanL c (nanmean c) = true := by
+  unfold momentOk
+  rw [expectIgn_meanL, closeO0_self]
+
 theorem firstNaN_of_hasNaN {c : Col α} (h : hasNaN c = true) : ∃ i, firstNaN c = some i := by
   induction c with
   | nil => simp [hasNaN] at h
